@@ -96,13 +96,7 @@ var builtinFunctions = map[XmlName]Function{
 }
 
 func last(context Context, args ...Result) (Result, error) {
-	nodeSet, ok := context.Result().(NodeSet)
-
-	if !ok {
-		return nil, errQueryNonNodeset
-	}
-
-	return Number(len(nodeSet)) + 1, nil
+	return Number(context.ContextSize()), nil
 }
 
 func position(context Context, args ...Result) (Result, error) {
